@@ -303,7 +303,11 @@ class BaseClient:
         return result.event
 
     def trigger_event(self, event: events.BaseEvent):
-        for callback in self.callbacks:
+        # callbacks may register or remove callbacks (a one-shot listener removes
+        # itself): iterate over a snapshot and skip those removed in the meantime
+        for callback in list(self.callbacks):
+            if callback not in self.callbacks:
+                continue
             if callback.accepts_event(event):
                 try:
                     if asyncio.iscoroutinefunction(callback.callback):
